@@ -411,7 +411,12 @@ C13rCl(r) ==
           c # 0 /\ Cardinality({i \in Ix(r) : Ev(r, i).k = "cleanup" /\ Ev(r, i).cid = c})
                    # Cardinality({i \in AllStepEvs(r, s) : Ev(r, i).pos = p /\ ~LookupFails(r, s, p)})
     THEN {"C13.cleanup_once"} ELSE {})
-   \cup (IF Ran(r) /\ AnyCleanupRaised(r) /\ ~r.end.verdict THEN {"C13.cleanup_fails_run"} ELSE {})
+   \* (under autoretry a cleanup of a scenario scope that raised in a forgiven attempt does not count)
+   \cup (IF Ran(r) /\ ~r.end.verdict /\
+            (IF ~r.cfg.retry THEN AnyCleanupRaised(r)
+             ELSE \E s \in Scens(r) : \E p \in DOMAIN StepsOf(r, s) : LET st == StepsOf(r, s)[p] IN
+                     st.cl_id # 0 /\ ClOwner(r, s, p) # s /\ \E i \in Ix(r) : Ev(r, i).k = "cleanup" /\ Ev(r, i).cid = st.cl_id /\ Ev(r, i).raised)
+         THEN {"C13.cleanup_fails_run"} ELSE {})
    \* hooks that register a cleanup (row.hookcl): each of them runs exactly once, too -- also one registered by after_all
    \cup (IF Ran(r) /\ r.hookcl /\ \E i \in Ix(r) : Ev(r, i).k = "hook" /\ Ev(r, i).name \in RegHooks
                                   /\ Cardinality({j \in Ix(r) : Ev(r, j).k = "cleanup" /\ Ev(r, j).cid = 500 + Ev(r, i).n}) # 1
